@@ -237,3 +237,70 @@ def rule_reentrant_flag(db: ProgramDB) -> List[Instance]:
                         f"suspended, the attribute is overwritten and the remaining falsy values are dropped",
                         line=bad[0].lineno if bad else m.lineno))
     return out
+
+
+# ---------------------------------------------------------------------------------- VALUE-NOT-TESTED
+def rule_value_not_tested(db: ProgramDB) -> List[Instance]:
+    """The payload of a bound value (`<hashed value>.value`: a user object, an attribute value, an element of a user
+    collection) is tested for truth only where that truth is the meaning of the expression, i.e. where the test decides
+    `self._is_false_` (the filter sites of condition position).  Anywhere else - deciding whether to skip, wrap, flatten or
+    accumulate a value - a truth test makes 0, '', [], None and False behave differently from other values."""
+    out = []
+    se = db.cls("SymbolicExpression")
+    n_methods = 0
+    for c in sorted([se] + se.all_subclasses(), key=lambda k: k.qualname):
+        for m in c.methods.values():
+            payload_reads = [x for x in own_nodes(m.node) if isinstance(x, ast.Attribute) and x.attr == "value"
+                             and isinstance(x.value, ast.Name) and x.value.id != "self"]
+            if not payload_reads:
+                continue
+            tainted: Set[str] = set()
+            for a in own_nodes(m.node):
+                if isinstance(a, ast.Assign) and len(a.targets) == 1 and isinstance(a.targets[0], ast.Name) \
+                        and any(a.value is r for r in payload_reads):
+                    tainted.add(a.targets[0].id)
+
+            def is_payload(e: ast.AST) -> bool:
+                return any(e is r for r in payload_reads) or (isinstance(e, ast.Name) and e.id in tainted)
+            n_methods += 1
+            uses = []
+            parent = db.parent
+            for n in own_nodes(m.node):
+                tests = []
+                if isinstance(n, (ast.If, ast.While, ast.IfExp, ast.Assert)):
+                    tests.append((n, n.test))
+                elif isinstance(n, ast.Call) and dotted(n.func) == "bool" and n.args:
+                    tests.append((n, n.args[0]))
+                elif isinstance(n, ast.BoolOp) and not isinstance(parent(n), (ast.If, ast.While, ast.IfExp, ast.BoolOp, ast.UnaryOp)):
+                    for v in n.values[:-1]:
+                        tests.append((n, v))
+                elif isinstance(n, ast.comprehension):
+                    for t in n.ifs:
+                        tests.append((n, t))
+                for holder, t in tests:
+                    for leaf in _boolean_leaves(t):
+                        if is_payload(leaf):
+                            uses.append((holder, leaf))
+            for holder, leaf in uses:
+                # a filter site: the statement the test belongs to decides self._is_false_
+                st = holder
+                while st is not None and not isinstance(st, ast.stmt):
+                    st = parent(st)
+                decides_flag = st is not None and any(
+                    isinstance(x, ast.Assign) and any(isinstance(t, ast.Attribute) and t.attr == "_is_false_" for t in x.targets)
+                    for x in ast.walk(st))
+                key = f"{m.short}[truth of `{unparse(leaf)}` in `{unparse(holder.test if hasattr(holder, 'test') else holder)[:40]}`]"
+                if decides_flag:
+                    out.append(inst("VALUE-NOT-TESTED", INFO, m, key, "filter site: this test is the truth of the expression in condition position "
+                                                                      "(it decides _is_false_)", line=leaf.lineno))
+                else:
+                    out.append(inst("VALUE-NOT-TESTED", VIOLATION, m, key,
+                                    f"the payload of a bound value is tested for truth to decide something other than the truth of a "
+                                    f"condition: a falsy value (0, '', [], None, False) is skipped / wrapped / accumulated differently "
+                                    f"from any other value", line=leaf.lineno))
+            if not uses:
+                out.append(inst("VALUE-NOT-TESTED", HOLDS, m, f"{m.short}[payloads]",
+                                f"{len(payload_reads)} payload read(s), none tested for truth"))
+    if n_methods == 0:
+        raise AnalysisError("no method reads the payload of a bound value")
+    return out
